@@ -125,7 +125,21 @@ func scenarioC03(c *hlib.RunCtx) *hlib.Violation {
 			p.stacks = append(p.stacks, p.f.VerifNewStack(key, 2))
 		}
 	}
+	// Growth: in half of the runs the first page is pre-filled so that the long
+	// names the threads create cross into a new page (extend, remap,
+	// invalidateCounters, close of the previous mapping) while increments are in
+	// flight.
+	prefill := t.Bool(1, 2)
+	if prefill {
+		for i := 0; i < 2; i++ {
+			p.counters = append(p.counters, p.f.VerifNewCounter(longName(fmt.Sprintf("G%d/", i), 2000+t.Draw(2000))))
+		}
+		ncounters += 2
+	}
 	openMode := t.Draw(4) // 0 opened before the threads, 1 concurrent rotate1, 2 concurrent rotate (timer), 3 never
+	if prefill && openMode == 3 {
+		openMode = 0
+	}
 	rotation := openMode != 3 && t.Bool(1, 3)
 	maxOps := 6
 	if thorough {
@@ -170,6 +184,21 @@ func scenarioC03(c *hlib.RunCtx) *hlib.Violation {
 	if openMode == 0 {
 		it := s.Spawn(p.p, "open", func() { enterAdd(); p.f.VerifRotate1(); leaveAdd() })
 		s.RunSolo(it, 1<<20)
+	}
+	if prefill {
+		fill := func() {
+			for i := 0; i < 3; i++ {
+				cn := p.f.VerifNewCounter(longName(fmt.Sprintf("P%d/", i), 4000))
+				p.counters = append(p.counters, cn)
+				w.add(p, cn, 1)
+			}
+		}
+		if openMode == 0 {
+			it := s.Spawn(p.p, "prefill", fill)
+			s.RunSolo(it, 1<<20)
+		} else {
+			s.Spawn(p.p, "prefill", fill)
+		}
 	}
 	for i := range scripts {
 		sc := scripts[i]
